@@ -194,3 +194,110 @@ func DiffMultiset(a, b []string) (onlyA, onlyB []string) {
 	sort.Strings(onlyB)
 	return
 }
+
+// Atoms returns what a function *does*, without how it is laid out: the set of resolved callees (with constant
+// arguments), literals, field selections, binary operators with their operand types, case expressions,
+// composite-literal types and keys, conversions, and constant results — of the function and of the helpers of
+// its package that the tables have never seen (an extracted block is still part of the function). Control
+// structure (if/else vs guard clause, switch vs chain, temporaries, local names, statement order, break/continue)
+// leaves the set unchanged; a changed operator, constant, callee, field, accessor or message changes it.
+func (p *Prog) Atoms(fi *FuncInfo, subst [][2]string) map[string]bool {
+	out := map[string]bool{}
+	verRe := regexp.MustCompile(`\bv[0-9]+\.`)
+	norm := func(s string) string {
+		for _, sb := range subst {
+			s = regexp.MustCompile(sb[0]).ReplaceAllString(s, sb[1])
+		}
+		// the twins are written against the v2 and the v3 API packages, and pass records by pointer or by
+		// value: neither is a difference of what the function does
+		s = verRe.ReplaceAllString(s, "")
+		return strings.ReplaceAll(s, "*", "")
+	}
+	tstr := func(t types.Type) string {
+		if t == nil {
+			return "?"
+		}
+		return norm(types.TypeString(t, func(pk *types.Package) string { return pk.Name() }))
+	}
+	for _, h := range p.WithHelpers(fi, 3, true) {
+		info := h.Pkg.TypesInfo
+		ast.Inspect(h.Decl.Body, func(n ast.Node) bool {
+			switch x := n.(type) {
+			case *ast.CallExpr:
+				if tv, ok := info.Types[x.Fun]; ok && tv.IsType() {
+					out["conv "+tstr(tv.Type)] = true
+					return true
+				}
+				var id *ast.Ident
+				switch f := ast.Unparen(x.Fun).(type) {
+				case *ast.Ident:
+					id = f
+				case *ast.SelectorExpr:
+					id = f.Sel
+				}
+				name := "dynamic"
+				if id != nil {
+					switch o := info.Uses[id].(type) {
+					case *types.Func:
+						if hf := p.Funcs[o]; hf != nil && hf.Pkg == fi.Pkg && IsNewHelper(hf) {
+							return true // looked through
+						}
+						name = o.Name()
+						if sig, ok := o.Type().(*types.Signature); ok && sig.Recv() != nil {
+							name = tstr(sig.Recv().Type()) + "." + name
+						} else if o.Pkg() != nil {
+							name = o.Pkg().Name() + "." + name
+						}
+					case *types.Builtin:
+						name = o.Name()
+					}
+				}
+				var consts []string
+				for _, a := range x.Args {
+					if tv, ok := info.Types[a]; ok && tv.Value != nil {
+						consts = append(consts, tv.Value.ExactString())
+					}
+				}
+				out["call "+norm(name)+"("+strings.Join(consts, ",")+")"] = true
+			case *ast.BasicLit:
+				out["lit "+x.Value] = true
+			case *ast.SelectorExpr:
+				if sel := info.Selections[x]; sel != nil && sel.Kind() == types.FieldVal {
+					out["field "+tstr(sel.Recv())+"."+x.Sel.Name] = true
+				} else if c, ok := info.Uses[x.Sel].(*types.Const); ok {
+					out["const "+norm(c.Pkg().Name()+"."+c.Name())] = true
+				}
+			case *ast.BinaryExpr:
+				if x.Op.String() != "&&" && x.Op.String() != "||" {
+					out["op "+x.Op.String()+" "+tstr(info.TypeOf(x.X))] = true
+				}
+			case *ast.CaseClause:
+				for _, e := range x.List {
+					if tv, ok := info.Types[e]; ok && tv.IsType() {
+						out["case type "+tstr(tv.Type)] = true
+					} else {
+						out["case "+norm(types.ExprString(e))] = true
+					}
+				}
+			case *ast.CompositeLit:
+				t := tstr(info.TypeOf(x))
+				out["lit-type "+t] = true
+				for _, el := range x.Elts {
+					if kv, ok := el.(*ast.KeyValueExpr); ok {
+						if id, ok := kv.Key.(*ast.Ident); ok {
+							out["lit-key "+t+"."+id.Name] = true
+						}
+					}
+				}
+			case *ast.IncDecStmt:
+				out["incdec "+x.Tok.String()] = true
+			case *ast.UnaryExpr:
+				if x.Op.String() != "!" && x.Op.String() != "&" {
+					out["unary "+x.Op.String()] = true
+				}
+			}
+			return true
+		})
+	}
+	return out
+}
